@@ -97,12 +97,15 @@ type World struct {
 	trace   []string
 	witness []string
 
-	faults map[string]int
-	probes map[string]int
-	states map[string]int
-	viol   []Violation
-	start  time.Time
-	abort  string
+	faults   map[string]int
+	probes   map[string]int
+	states   map[string]int
+	viol     []Violation
+	start    time.Time
+	abort    string
+	lastSite string // schedule point of the task released last
+	sameSite int    // consecutive releases of the same task at the same point
+	spins    int    // times the spin breaker let simulated time pass
 }
 
 const fnvOff = 14695981039346656037
@@ -401,6 +404,22 @@ func (w *World) loop(horizon *time.Timer) {
 			}
 		}
 		w.step++
+		// A task that comes back to the same schedule point thousands of times in a row while nothing else runs is
+		// spinning (a loop that has stopped making progress). Simulated time only moves when nothing is runnable, so such
+		// a loop would freeze the clock for everybody; in a real process time passes regardless. Let it pass.
+		if t == w.last && t.site == w.lastSite {
+			w.sameSite++
+			if w.sameSite >= 3000 {
+				w.sameSite = 0
+				w.spins++
+				w.mu.Unlock()
+				time.Sleep(time.Second)
+				w.mu.Lock()
+			}
+		} else {
+			w.sameSite = 0
+		}
+		w.lastSite = t.site
 		if t.site == "lockwait" {
 			t.tried = w.epoch
 		} else {
